@@ -32,6 +32,9 @@ func loadAll(repo, verif string) (*Prog, error) {
 			return nil, err
 		}
 	}
+	if c := P.specs.lemmaCycle(); c != "" {
+		return nil, fmt.Errorf("circular lemma uses: %s", c)
+	}
 	return P, nil
 }
 
@@ -74,7 +77,14 @@ func main() {
 			ks = append(ks, k)
 		}
 		sort.Strings(ks)
+		contracted := len(os.Args) > 2 && os.Args[2] == "-contracted"
 		for _, k := range ks {
+			if contracted {
+				c := P.specs.Funcs[k]
+				if c == nil || c.Trusted || c.Pure || c.Inline {
+					continue
+				}
+			}
 			fmt.Println(k)
 		}
 	default:
@@ -107,7 +117,11 @@ func cmdFunc(args []string) {
 			continue
 		}
 		gen := time.Since(t0)
+		fmt.Fprintf(os.Stderr, "%s: generated %d obligations on %d paths in %v\n", key, len(r.Obls), r.Paths, gen.Round(time.Millisecond))
 		solveAll(P, r.Obls, *timeout, false, 3)
+		if os.Getenv("GOWP_PROF") != "" {
+			fmt.Fprintf(os.Stderr, "script building (full variant): %v\n", time.Duration(scriptNanos))
+		}
 		bad := 0
 		// return-path covers are judged per return position: one feasible path suffices
 		coverOK := map[string]bool{}
